@@ -19,7 +19,7 @@ func init() {
 			"balance, or a missing guard are reported); every Add to a Value whose addend can be a negated amount is followed, on every path to a success return, by the edge establishing exactly Cmp(Value, 0) >= 0 evaluated after that Add. " +
 			"R2 (direction and amount source): below each registered entry point the mutators applied to a Value and the sign of the delta handed to the shared balance helper match the table's supply column (+, -, transfer, none), and every amount is " +
 			"SetBytes(Arguments[k]) (non-negative by construction), its negation, or the current holding of the credited entry. R3: entry points whose supply column is 0 (and the toggles) contain no Value mutation and no store to ESDigitalToken.Value of a read entry. " +
-			"R4: the delete performed by ESDTWipe is cut by Frozen == true of the entry read from the same account and key. R5/R6/R7/R8 are shared obligations re-derived under this property: the nonce counter travels with the create role (C07-R2/R3), a credit adds to the holding (C01-R1), a balance key names the token and nonce of the input (C05-R3), and SaveKeyValue cannot write a balance entry (C03-R6). Does NOT decide: that the stored number equals old ± amount (arithmetic of math/big).",
+			"R4: the delete performed by ESDTWipe is cut by Frozen == true of the entry read from the same account and key. R5/R6/R7/R8 are shared obligations re-derived under this property: the nonce counter travels with the create role (C07-R2/R3), a credit adds to the holding (C01-R1), a balance key names the token and nonce of the input (C05-R3), and SaveKeyValue cannot write a balance entry (C03-R6). R9: the nonce counter is read with the codec it is written with. Does NOT decide: that the stored number equals old ± amount (arithmetic of math/big).",
 		Trusted: []string{"math/big Add/Sub/Neg/Cmp semantics", "T-REG supply column restating the property"},
 		Rules:   []func(*Ctx){c02r1, c02r2, c02r4, c02r5, c02r6, c02r7, c02r8, c02r9},
 	})
